@@ -28,7 +28,8 @@ LEVEL_TEXT = (
     "All concrete DPT classes over every payload they accept: complete for payloads of <= 2 octets (6-bit values, 256 and 65,536 arrays; in the quick "
     "tier the 65,536 arrays are complete for one class per behaviour signature - same code, same range/resolution parameters - and a 1/7 stride for its "
     "siblings, thorough: complete for every class); for 3..14-octet types every octet value in every position over zero / 0xFF / accepted backgrounds "
-    "plus 3,000 (100,000) random arrays. Order-aware pass: per payload family (same kind and length) 240 (2,400) payloads - the whole space when it has "
+    "plus 3,000 (100,000) random arrays; 4-octet types additionally the float32 neighbours (+-4 ulp) of every power of ten 1e-45..1e38 and (+-1 ulp) of "
+    "k*10^n, of every power of two, and the zero/subnormal/max/inf/NaN borders (quick: siblings of a behaviour signature get the decades only). Order-aware pass: per payload family (same kind and length) 240 (2,400) payloads - the whole space when it has "
     "<= 256 points - are decoded and re-encoded by all classes of the family back to back in both class orders and compared with each class's isolated "
     "result. Longer payloads are sampled, hence exploration."
 )
@@ -63,6 +64,14 @@ def _own(cls):
     if own == "DPTComplex":
         own = G.owner(cls, "_to_knx")
     return own
+
+
+def _decade(value):
+    """Mechanism classifier: the decoded value is exactly a power of ten (7-digit rounding at a decade boundary)."""
+    if isinstance(value, float) and math.isfinite(value) and value != 0:
+        if abs(value) == float(f"1e{round(math.log10(abs(value)))}"):
+            return "-at-power-of-ten"
+    return ""
 
 
 def _bucket(value):
@@ -129,7 +138,7 @@ def _judge(ctx, cls, payload, buckets=None):
     expected = _expected(cls, value)
     if not _same(expected, value2):
         ctx.violation(
-            f"{own}-reencode-changes-value",
+            f"{own}-reencode-changes-value{_decade(value)}",
             {**witness, "encoded": G.describe(encoded), "value_after": repr(value2)[:300]},
             f"{cls.__name__}: {payload!r} decodes to {value!r}, re-encodes to {encoded!r}, which decodes to {value2!r}"[:400],
         )
@@ -157,7 +166,8 @@ def _payload_space(ctx, cls, exhaustive_two_octet):
             for i in range(start, size, 7):
                 yield G.mk(cls, i)
     else:
-        yield from G.own_payloads(cls, ctx.rng, ctx.scale(3000, 100000))
+        # quick: classes sharing code and parameters with an earlier one get the decade neighbourhoods only
+        yield from G.own_payloads(cls, ctx.rng, ctx.scale(3000, 100000), float_points="full" if exhaustive_two_octet else "decades")
     # a few foreign payloads: must simply not be accepted
     yield DPTArray(())
     yield DPTBinary(0x3F)
@@ -240,7 +250,7 @@ def _call_sites(ctx, classes, fixed=None):
                         except BaseException:  # noqa: BLE001
                             direct_ok = False
                         ctx.violation(
-                            f"{own}-reencode-changes-value" + (f"-only-at-{site}" if direct_ok else ""),
+                            f"{own}-reencode-changes-value{_decade(value)}" + (f"-only-at-{site}" if direct_ok else ""),
                             {"cls": cls.__name__, "payload": G.describe(payload), "value": repr(value)[:200], "site": site,
                              "sent": repr(out.payload)[:200], "value_after": repr(back)[:200]},
                             f"{cls.__name__}: {site} re-sent value {value!r} (from {payload!r}) as {out.payload!r}, which decodes to {back!r}"[:400],
